@@ -6,7 +6,7 @@
 # patched trees: run tools/runall.sh quick afterwards.
 cd "$(dirname "$0")/.."
 export GOFLAGS=-mod=mod GOPROXY=off GOSUMDB=off GOTOOLCHAIN=local
-jobs="${1:-3}"; shift
+jobs="${1:-3}"; shift; tag=$$  # several runs may be active at once (different snapshots): worktree names carry the pid
 list=""
 for pat in "${@:-}"; do
   list="$list $(ls mutants/*${pat}*.patch 2>/dev/null) $(ls -d seeded/*${pat}*/patch.diff 2>/dev/null)"
@@ -15,7 +15,7 @@ list=$(echo $list | tr ' ' '\n' | sort -u)
 mkdir -p .work/pst; rm -f .work/pst/queue.*; i=0
 for p in $list; do echo "$p" >> ".work/pst/queue.$((i % jobs))"; i=$((i+1)); done
 worker() {
-  k=$1; wt=/root/pst-wt-$k
+  k=$1; wt=/root/pst-wt-$tag-$k
   git -C /repo worktree remove --force "$wt" 2>/dev/null; git -C /repo worktree add --detach "$wt" HEAD -q || exit 2
   while read -r p; do
     case "$p" in
